@@ -81,6 +81,55 @@ def pathH (j : Json) : R Json := do
     let acc := (init.zip idx).map (fun x => accPath x.1 (cs.filterMap (fun perEl => perEl[x.2]?)))
     return jObj (jAcc acc)
 
-def handlers : List (String × Handler) := [("c05.span", spanH), ("c05.path", pathH)]
+/-- rows ↔ columns of a rectangular matrix given as a list of columns of height `n` -/
+def transposeCols (n : Nat) (cols : List (List Float)) : List (List Float) :=
+  (List.range n).map (fun a => cols.filterMap (fun c => c[a]?))
+
+def solve (method : String) (order : Nat) (alpha : List Float) (cr : List (List Float)) (pin : List Float)
+    (grid : List (Float × Float)) : R (List (List Float)) :=
+  match method with
+  | "numerical" => pure (transposeCols pin.length (Gnpy.Raman.euler alpha cr pin grid))
+  | "perturbative" =>
+    if order > 4 then throw "ValueError" else pure (Gnpy.Raman.perturbative order alpha cr pin grid)
+  | _ => throw "ValueError"
+
+/-- `RamanSolver.calculate_unidirectional_stimulated_raman_scattering` on a given grid `(z, lumped)` -/
+def ramanUniH (j : Json) : R Json := do
+  let method ← fStr j "method"
+  let order ← fNat j "order"
+  let alpha ← fList getF j "alpha"
+  let cr ← fList (getList getF) j "cr"
+  let pin ← fList getF j "pin"
+  let grid ← fList C03.getPair j "grid"
+  match solve method order alpha cr pin grid with
+  | .error e => return jObj [("error", jStr e)]
+  | .ok pw => return jObj [("power", jList (jList jF) pw)]
+
+/-- `Fiber.__call__` with Raman on and no pumps: `_create_lumped_losses` on the solver grid `z`, the unidirectional
+solver on the powers behind the input connector, the loss of the last grid point, the output connector -/
+def ramanFiberH (j : Json) : R Json := do
+  let (s, ok) ← getSpan j
+  if !ok then return jObj [("error", jStr "NetworkTopologyError")]
+  let method ← fStr j "method"
+  let order ← fNat j "order"
+  let cr ← fList (getList getF) j "cr"
+  let z ← fList getF j "z"
+  let f ← fList getF j "f"
+  let p ← fList getF j "p"
+  match allSome (f.map (alphaAt s.fib)) with
+  | none => return jObj [("error", jStr "SpectrumError")]
+  | some alpha =>
+    let p1 := p.map (fun x => applyAttDb x (s.conIn + s.attIn))
+    let grid := createLumped s.lumped z
+    match solve method order alpha cr p1 grid with
+    | .error e => return jObj [("error", jStr e)]
+    | .ok pw =>
+      let lossLast := (pw.zip p1).map (fun x => Gnpy.Raman.lastD x.2 x.1 / x.2)
+      let out := (p1.zip lossLast).map (fun x => applyAttDb (x.1 * x.2) s.conOut)
+      return jObj [("pch", jList jF out), ("loss_last", jList jF lossLast),
+                   ("grid", jList (fun g : Float × Float => Json.arr #[jF g.1, jF g.2]) grid)]
+
+def handlers : List (String × Handler) :=
+  [("c05.span", spanH), ("c05.path", pathH), ("c05.raman_uni", ramanUniH), ("c05.raman_fiber", ramanFiberH)]
 
 end Gnpy.Drv.C05
